@@ -176,3 +176,40 @@ package table
 //@   invariant (arrid(indexBlock.Entries) >= old(alloc) || cap(indexBlock.Entries) == 0)
 //@   invariant all(b, 0, len(dataBlocks), len(dataBlocks[b].Entries) > 0)
 //@   invariant len(indexBlock.Entries) == rangeindex + 1
+//
+// Data.Decode, one record at a time (C11): for every entry DE = (DKey, DVal, DTomb, DVer) and prefix length DL (ghost, arbitrary):
+// if the input at the position where an iteration starts holds the record of DE with stored prefix
+// length DL (lengths below 65536), then the iteration reads exactly that record - the cursor advances
+// by its length - and appends an entry with DE's value, tombstone flag and version whose key is
+// prevKey[:DL] followed by DE.Key[DL:]; so when prevKey shares DE.Key's first DL bytes (what
+// Data.Encode stores) the key is DE.Key. Together with the encode side this is the round trip of a
+// data block record by record; the induction over the whole block is not machine-checked.
+//@ ghost DKey Str
+//@ ghost DVal Str
+//@ ghost DTomb Bool
+//@ ghost DVer Int
+//@ ghost DL Int
+//@ ghost DP Int
+// "the input holds the record of (DKey, DVal, DTomb, DVer) with prefix length DL at position p",
+// field by field (the same layout as dRec)
+//@ define dN1() = len(DKey) - DL
+//@ define dHyp(rd, p) = 0 <= DL && DL <= len(DKey) && DL < 65536 && dN1() < 65536 && len(DVal) < 65536 && -9223372036854775808 <= DVer && DVer <= 9223372036854775807 && 0 <= p && p + 15 + dN1() + len(DVal) <= len(RdData[rd]) && RdData[rd][p : p + 2] == le16(u16(DL)) && RdData[rd][p + 2 : p + 4] == le16(u16(dN1())) && RdData[rd][p + 4 : p + 4 + dN1()] == DKey[DL:len(DKey)] && RdData[rd][p + 4 + dN1() : p + 6 + dN1()] == le16(u16(len(DVal))) && RdData[rd][p + 6 + dN1() : p + 6 + dN1() + len(DVal)] == DVal && RdData[rd][p + 6 + dN1() + len(DVal) : p + 7 + dN1() + len(DVal)] == le8(ite(DTomb, 1, 0)) && RdData[rd][p + 7 + dN1() + len(DVal) : p + 15 + dN1() + len(DVal)] == le64(u64of(DVer))
+//@ func (*table.Data).Decode -> err
+//@ props C11
+//@ requires d != nil
+// thin: the slice-bound and allocation obligations of the body are not claimed - on bytes that were
+// not produced by Data.Encode (a stored prefix length above the previous key's length, a length field
+// beyond the input) Decode can panic; the property is about decoding what was encoded
+//@ thin ^assert|^loop
+//@ assigns everything
+//@ before_call (*utils.ErrorReader).Read#0: ghost DP = RdPos[ref(reader)]
+//@ after_call (*utils.ErrorReader).Read#0: assert dHyp(ref(reader), DP) ==> (r.err == nil && lcp == DL && RdPos[ref(reader)] == DP + 2)
+//@ after_call (*utils.ErrorReader).Read#1: assert dHyp(ref(reader), DP) ==> (r.err == nil && suffixLen == dN1() && RdPos[ref(reader)] == DP + 4)
+//@ after_call (*utils.ErrorReader).Read#2: assert dHyp(ref(reader), DP) ==> (r.err == nil && len(suffix) == dN1() && string(suffix) == DKey[DL:len(DKey)] && RdPos[ref(reader)] == DP + 4 + dN1())
+//@ after_call (*utils.ErrorReader).Read#3: assert dHyp(ref(reader), DP) ==> (r.err == nil && valueLen == len(DVal) && RdPos[ref(reader)] == DP + 6 + dN1())
+//@ after_call (*utils.ErrorReader).Read#4: assert dHyp(ref(reader), DP) ==> (r.err == nil && len(value) == len(DVal) && string(value) == DVal && RdPos[ref(reader)] == DP + 6 + dN1() + len(DVal))
+//@ after_call (*utils.ErrorReader).Read#5: assert dHyp(ref(reader), DP) ==> (r.err == nil && (tombstone == 1) == DTomb && RdPos[ref(reader)] == DP + 7 + dN1() + len(DVal))
+//@ after_call (*utils.ErrorReader).Read#6: assert dHyp(ref(reader), DP) ==> (r.err == nil && lcp == DL && string(suffix) == DKey[DL:len(DKey)] && string(value) == DVal && (tombstone == 1) == DTomb && i64of(version) == DVer && RdPos[ref(reader)] == DP + 15 + dN1() + len(DVal))
+//@ after_call append#0: assert dHyp(ref(reader), DP) ==> (result[len(result)-1].Key == prevKey[0:DL] + DKey[DL:len(DKey)] && string(result[len(result)-1].Value) == DVal && result[len(result)-1].Tombstone == DTomb && result[len(result)-1].Version == DVer)
+//@ loop 0:
+//@   invariant r != nil && r.err == nil && reader != nil && tag(r.r) == tagof(*bytes.Reader) && unbox(*bytes.Reader, r.r) == reader && buf != nil && BufOwned[ref(buf)]
